@@ -5,6 +5,7 @@ mod hops;
 mod sched;
 mod c01;
 mod c02;
+mod c03;
 mod c04;
 mod c05;
 mod c06;
@@ -58,6 +59,7 @@ fn main() {
         }
         "c01" => c01::run(opts),
         "c02" => c02::run(opts),
+        "c03" => c03::run(opts),
         "c04" => c04::run(opts),
         "c05" => c05::run(opts),
         "c05-worker" => c05::worker(&args[1..]),
